@@ -8,6 +8,8 @@ CONSTANTS
   MaxLen = 3
   MaxOps = 6
   Variant = "shared_default"
+  ElemOf <- Elem3
+  CacheVariant = "none"
 INVARIANT TypeOK
 INVARIANT ListsExactlyItsSpecies
 INVARIANT OwnerAlive
